@@ -646,7 +646,25 @@ def _observe(ctx, ds, role, call, reference):
     if _S.calls % 23 == 0:
         Cache.clear_cache()          # (costs a gc.collect(): only now and then)
         ctx.count("cache_cleared")
-    return recs[0]
+    # the client owns what it was handed: every second call it overwrites the returned arrays
+    # in place (as a plotting routine normalising a density does); later results - of this
+    # dataset, its twin or any other - must not depend on that
+    rec = recs[0]
+    if rec.get("exc") is None and "result" in rec and _S.calls % 2 == 0:
+        rec["result"] = _detach_and_scribble(ctx, rec["result"])
+    return rec
+
+
+def _detach_and_scribble(ctx, res):
+    if isinstance(res, (tuple, list)):
+        return type(res)(_detach_and_scribble(ctx, r) for r in res)
+    if isinstance(res, np.ndarray):
+        keep = res.copy()
+        if res.flags.writeable and res.dtype.kind == "f" and res.size:
+            res[...] = -777.25
+            ctx.count("returned_arrays_overwritten_by_the_client")
+        return keep
+    return res
 
 
 def _same(a, b):
